@@ -234,6 +234,7 @@ def separation(ctx, spec, h0, named=False):
     M = spec.nsmap()
     out.append(('sep.manager-map', And(A[M], c.isa(M, 'Dict'), role[M] == 3)))
     out.append(('sep.manager-map.values', ForAll([P], Implies(h0['dk'][M][P], And(isNSg(h0['dv'][M][P]), par[h0['dv'][M][P]] == P)), patterns=[h0['dv'][M][P]])))
+    out.append(('sep.manager-map.keys', ForAll([P], Implies(h0['dk'][M][P], And(P != c.null, c.isa(P, 'Netlist', 'Library', 'Definition'))), patterns=[h0['dk'][M][P]])))
     x = Const('xq_sep', c.Ref)
     out.append(('sep.ir-values', ForAll([x], Implies(c.isa(x, 'Netlist', 'Library', 'Definition', 'Port', 'Cable', 'Instance'), spec.sv(x) == x), patterns=[spec.sv(x)])))
     return out if named else [g for _, g in out]
@@ -432,3 +433,114 @@ def mpost(fname):
 
 
 POSTS = {'%s.%s' % (f[0], f[1]): (post(f[0], f[1]) if f[0] != 'NamespaceManager' else mpost(f[1])) for f in FUNCTIONS}
+
+
+# ------------------------------------------------------------------ lemmas over the hook contracts (no code involved)
+EL_CLASSES = ('Library', 'Definition', 'Port', 'Cable', 'Instance')
+
+
+def inv_ns(c, spec, h, AP, ahas, aval, named=True):
+    """the tables agree with a scan: relative to the ANNOUNCED parent AP[e] and the announced data (ahas, aval) of every element.
+    A: every entry leads to a child of that parent carrying that name / identifier; B: every named child is found under its name."""
+    M = spec.nsmap()
+    P, T, k, e = (Const(n, c.Ref) for n in ('Pq_i', 'Tq_i', 'kq_i', 'eq_i'))
+    isEl = lambda x: And(h['alloc'][x], c.isa(x, *EL_CLASSES))
+    out = []
+    for edif in (False, True):
+        KEY = c.KEY_EDIF if edif else c.KEY_NAME
+        keyv = (lambda x: spec.sv(spec.lowerf(aval[x][KEY]))) if edif else (lambda x: spec.sv(aval[x][KEY]))
+        N = h['dv'][M][P]
+        ent = tab(spec, h, N, T, k, edif)
+        scope = And(h['dk'][M][P], c.isa(N, 'EdifNamespace')) if edif else h['dk'][M][P]
+        tag = 'identifiers' if edif else 'names'
+        out.append(('entries-are-children.' + tag, ForAll([P, T, k], Implies(And(scope, ent != c.null),
+                    And(isEl(ent), AP[ent] == P, T == spec.tyobj(c.cls(ent)), ahas[ent][KEY], keyv(ent) == k)),
+                    patterns=[h['dv'][h['dv'][h['f_edif' if edif else 'f_namespaces'][N]][T]][k]])))
+        Ne = h['dv'][M][AP[e]]
+        scope_e = And(h['dk'][M][AP[e]], c.isa(Ne, 'EdifNamespace')) if edif else h['dk'][M][AP[e]]
+        out.append(('children-are-entries.' + tag, ForAll([e], Implies(And(c.isa(e, *EL_CLASSES), AP[e] != c.null, scope_e, ahas[e][KEY]),
+                    tab(spec, h, Ne, spec.tyobj(c.cls(e)), keyv(e), edif) == e), patterns=[AP[e]])))
+    return out if named else [g for _, g in out]
+
+
+def lemmas(ctx, spec):
+    """[(name, hypotheses, goal)]: each hook, used through its contract, carries inv_ns from the state before an announcement to the
+    state after it; a refusal happens exactly for a real duplicate among the (announced) siblings or an illegal identifier."""
+    from z3 import ArraySort
+    c = ctx
+    h0 = c.mk_heap('0')
+    AP = Const('AP', ArraySort(c.Ref, c.Ref))
+    ahas = h0['dhas']; aval = h0['dval']          # announced data = actual data at the time of a hook call (obligation at the announcement)
+    M = spec.nsmap()
+    class _S: pass
+    def after():
+        h1 = dict(h0)
+        for f_ in HAVOCKED: h1[f_] = c.fresh(f_ + '_lem', h0[f_].sort())
+        s_ = _S(); s_.heap = h1
+        return h1, s_
+    def contract(fname, ekind, args, val=None):
+        h1, s_ = after()
+        cl = mpost(fname)(c, spec, h0, s_, ekind, [None] + args, val)
+        return h1, [g for _, nm, g in cl]
+    isEl = lambda x: And(h0['alloc'][x], c.isa(x, *EL_CLASSES))
+    base = separation(c, spec, h0) + inv_ns(c, spec, h0, AP, ahas, aval, named=False)
+    x, P, value = Const('x_el', c.Ref), Const('P_par', c.Ref), Const('value', c.Ref)
+    key = Const('key', c.Key)
+    tyx = spec.tyobj(c.cls(x))
+    out = []
+    def goals(tag, hyps, h1, AP1, ahas1, aval1):
+        for nm, g in inv_ns(c, spec, h1, AP1, ahas1, aval1):
+            out.append(('C10/LEMMA/%s/%s' % (tag, nm), hyps, g))
+    e = Const('e_sib', c.Ref)
+    def sibling_dup(Pp, name_has, name_val, id_has, id_val, ed):
+        """a scan of the announced children of Pp finds another element of the same type with that name (or, EDIF, that identifier)"""
+        same_n = And(name_has, h0['dhas'][e][c.KEY_NAME], spec.sv(h0['dval'][e][c.KEY_NAME]) == name_val)
+        same_i = And(ed, id_has, h0['dhas'][e][c.KEY_EDIF], spec.sv(spec.lowerf(h0['dval'][e][c.KEY_EDIF])) == id_val)
+        return Exists([e], And(isEl(e), e != x, AP[e] == Pp, c.cls(e) == c.cls(x), Or(same_n, same_i)))
+    # ---- add(P, x)
+    pre = base + [isEl(x), h0['alloc'][P], c.isa(P, 'Netlist', 'Library', 'Definition'), AP[x] == c.null] + arg_pre(c, spec, h0, 'NamespaceManager.add', [None, R(P), R(x)])
+    h1, cl = contract('add', 'normal', [R(P), R(x)])
+    goals('add.accepted', pre + cl, h1, Store(AP, x, P), ahas, aval)
+    h1, cl = contract('add', 'ValueError', [R(P), R(x)])
+    goals('add.refused', pre + cl, h1, AP, ahas, aval)
+    Np = h0['dv'][M][P]; act = h0['dk'][M][P]; ed = c.isa(Np, 'EdifNamespace')
+    dup = And(act, sibling_dup(P, h0['dhas'][x][c.KEY_NAME], spec.sv(h0['dval'][x][c.KEY_NAME]),
+                               h0['dhas'][x][c.KEY_EDIF], spec.sv(spec.lowerf(h0['dval'][x][c.KEY_EDIF])), ed))
+    out.append(('C10/LEMMA/add.refused/only-for-a-real-duplicate-among-the-siblings', pre + cl, dup))
+    h1, cl = contract('add', 'normal', [R(P), R(x)])
+    out.append(('C10/LEMMA/add.accepted/no-duplicate-among-the-siblings', pre + cl, Not(dup)))
+    # ---- remove(x, parent=P)  /  remove(x, key)
+    pre = base + [isEl(x), h0['alloc'][P], c.isa(P, 'Netlist', 'Library', 'Definition'), AP[x] == P]
+    h1, cl = contract('remove', 'normal', [R(x), R(c.null), R(P)])
+    goals('remove', pre + cl, h1, Store(AP, x, c.null), ahas, aval)
+    # ---- dictionary_set(x, key, value): the announced parent is the actual one (obligation at the announcement)
+    Px = parent_of(c, h0, x)
+    pre = base + [isEl(x), AP[x] == Px, key != c.KEY_NS, c.cls(value) == c.C['Foreign'], h0['alloc'][value]] \
+        + arg_pre(c, spec, h0, 'NamespaceManager.dictionary_set', [None, R(x)])
+    ahas1 = Store(ahas, x, Store(ahas[x], key, True)); aval1 = Store(aval, x, Store(aval[x], key, value))
+    h1, cl = contract('dictionary_set', 'normal', [R(x), ('key', key), R(value)])
+    goals('dictionary_set.accepted', pre + cl, h1, AP, ahas1, aval1)
+    h1, clr = contract('dictionary_set', 'ValueError', [R(x), ('key', key), R(value)])
+    goals('dictionary_set.refused', pre + clr, h1, AP, ahas, aval)
+    Np = h0['dv'][M][Px]; act = And(Px != c.null, h0['dk'][M][Px]); ed = c.isa(Np, 'EdifNamespace')
+    pn = spec.policy_names(None)
+    illegal = And(key == c.KEY_EDIF, h0['dhas'][x][c.KEY_NS], spec.sv(h0['dval'][x][c.KEY_NS]) == spec.sv(pn['EDIF']), Not(spec.legal_id(value)))
+    dup = And(act, sibling_dup(Px, key == c.KEY_NAME, spec.sv(value), key == c.KEY_EDIF, spec.sv(spec.lowerf(value)), ed))
+    out.append(('C10/LEMMA/dictionary_set.refused/only-for-a-real-duplicate-or-an-illegal-identifier', pre + clr, Or(dup, illegal)))
+    out.append(('C10/LEMMA/dictionary_set.accepted/no-duplicate-and-legal', pre + cl, Not(Or(dup, illegal))))
+    # ---- dictionary_delete / dictionary_pop (x, key)
+    for fn_ in ('dictionary_delete', 'dictionary_pop'):
+        pre = base + [isEl(x), AP[x] == Px, key != c.KEY_NS]
+        h1, cl = contract(fn_, 'normal', [R(x), ('key', key)])
+        goals(fn_, pre + cl, h1, AP, Store(ahas, x, Store(ahas[x], key, False)), aval)
+    # ---- consequence: sibling names are unique
+    a, b = Const('a_el', c.Ref), Const('b_el', c.Ref)
+    for edif in (False, True):
+        KEY = c.KEY_EDIF if edif else c.KEY_NAME
+        kv = (lambda y: spec.sv(spec.lowerf(aval[y][KEY]))) if edif else (lambda y: spec.sv(aval[y][KEY]))
+        Na = h0['dv'][M][AP[a]]
+        sc = And(h0['dk'][M][AP[a]], c.isa(Na, 'EdifNamespace')) if edif else h0['dk'][M][AP[a]]
+        out.append(('C10/LEMMA/invariant/sibling-%s-are-unique' % ('identifiers' if edif else 'names'), base + [isEl(a), isEl(b)],
+                    Implies(And(AP[a] != c.null, AP[a] == AP[b], c.cls(a) == c.cls(b), sc, ahas[a][KEY], ahas[b][KEY], kv(a) == kv(b)), a == b)))
+    # vacuity: the hypotheses of each family are satisfiable is checked by the runner (a lemma whose hypotheses are contradictory is reported)
+    return out
